@@ -389,6 +389,18 @@ GROUPS = {
     },
 }
 
+def _load_cluster_groups():
+    """merge GROUPS_<k> of every translator/regions_<k>.py (cluster files) into GROUPS"""
+    import glob, importlib
+    here = os.path.dirname(os.path.abspath(__file__))
+    for p in sorted(glob.glob(os.path.join(here, 'regions_*.py'))):
+        name = os.path.basename(p)[:-3]
+        mod = importlib.import_module(name)
+        importlib.reload(mod)
+        for k, v in vars(mod).items():
+            if k.startswith('GROUPS_') and isinstance(v, dict):
+                GROUPS.update(v)
+
 def generate(repo, coqdir, golden_dir, update_golden=False):
     """returns status dict: region -> {status: regenerated|fallback|failed, error, ...}"""
     import inspect
@@ -398,6 +410,7 @@ def generate(repo, coqdir, golden_dir, update_golden=False):
         skeletons = {}
     status = {}
     SRC.clear()
+    _load_cluster_groups()
     for fname, grp in GROUPS.items():
         text = '(* GENERATED by /verif/translator from /repo — do not edit *)\n' + grp['imports']
         for rid, fn in grp['regions']:
